@@ -500,6 +500,21 @@ func (w *World) groundCacheTypes() (fc *FuncCtx) {
 		if depth > 10 {
 			return
 		}
+		// a repository type with its own (un)marshalling methods leaves the library's default, symmetric encoding:
+		// the round trip is then a property of those methods (and of whether encoding/json finds them: pointer
+		// receivers are not used for map and interface elements), which these obligations do not decide
+		if n, isNamed := t.(*types.Named); isNamed && n.Obj().Pkg() != nil && strings.HasPrefix(n.Obj().Pkg().Path(), repoModule) {
+			for _, mname := range []string{"MarshalJSON", "UnmarshalJSON", "MarshalText", "UnmarshalText"} {
+				for _, recv := range []types.Type{n, types.NewPointer(n)} {
+					if obj, _, _ := types.LookupFieldOrMethod(recv, true, n.Obj().Pkg(), mname); obj != nil {
+						if _, isFn := obj.(*types.Func); isFn && !seen["m:"+n.Obj().Name()+"."+mname] {
+							seen["m:"+n.Obj().Name()+"."+mname] = true
+							fc.obligeAt(st, "ground.cachetypes", path+"."+mname, "false", "", path+": type "+n.Obj().Name()+" defines "+mname+": the saved form is no longer the library's default encoding, and save and load are only inverse if these methods are (not decided)")
+						}
+					}
+				}
+			}
+		}
 		switch u := t.Underlying().(type) {
 		case *types.Basic:
 			ok := u.Info()&(types.IsInteger|types.IsBoolean|types.IsString) != 0
